@@ -156,17 +156,32 @@ def judge_cvrptw(inst, actions, cfg=None):
     tw, dur = inst["time_windows"], inst["durations"]
     t, cur = 0.0, 0
     tight = []
+    # `exact`: the clock is an integer that float32 (the env) and float64 (here) both hold exactly - every leg so far
+    # had an integer length from an integer departure time, or ended in a wait for an integer window start that the
+    # arrival missed by a clear margin.  Only then is "arrival == window end" free of rounding ambiguity; such
+    # evaluations are recorded under the name "time_window=" and may be judged with tolerance 0 (the problem lets a
+    # service start exactly when the window closes: docstring "start the service within the time window").
+    exact = True
     for a in actions:
         if not (0 <= a < n):
             continue
-        arr = t + dist(nodes[cur], nodes[a])
+        d = dist(nodes[cur], nodes[a])
+        leg_exact = exact and float(d).is_integer() and float(t).is_integer() and abs(t + d) < 2 ** 20
+        arr = t + d
         slack = tw[a][1] - arr
-        v.add("time_window", slack)
+        v.add("time_window=" if (leg_exact and slack == 0 and float(tw[a][1]).is_integer()) else "time_window", slack)
         tight.append(slack)
         if a == 0:
-            t = 0.0
+            t, exact = 0.0, True
         else:
-            t = max(arr, tw[a][0]) + dur[a]
+            lo = tw[a][0]
+            if leg_exact and float(lo).is_integer() and float(dur[a]).is_integer():
+                exact = True
+            elif lo - arr > 1e-2 and float(lo).is_integer() and float(dur[a]).is_integer():
+                exact = True  # waits: departs at the (integer) window start whatever the rounding of the arrival
+            else:
+                exact = False
+            t = max(arr, lo) + dur[a]
         cur = a
     if cur != 0:  # must be able to get back before the depot closes
         arr = t + dist(nodes[cur], nodes[0])
@@ -375,8 +390,11 @@ def judge_mtvrp(inst, actions, cfg=None):
                 v.viol.append(("linehaul_after_backhaul", NEG))
                 break
         t, cur, length = 0.0, 0, 0.0
+        # dyadic: every leg length is a multiple of 2^-10 below 2^10, so float32 (env) and float64 (here) sums are exact
+        dyadic = True
         for a in r:
             d = dist(locs[cur], locs[a])
+            dyadic = dyadic and float(d * 1024).is_integer() and d < 1024
             length += d
             arr = t + d / speed
             if tw[a][1] < 1e29:
@@ -387,11 +405,14 @@ def judge_mtvrp(inst, actions, cfg=None):
         back = dist(locs[cur], locs[0])
         if not open_route:
             length += back
+            dyadic = dyadic and float(back * 1024).is_integer() and back < 1024
             if tw[0][1] < 1e29:
                 v.add("depot_deadline", tw[0][1] - (t + back / speed))
             tw_slacks.append(tw[0][1] - (t + back / speed))
         if limit < 1e29:
-            v.add("distance_limit", limit - length)
+            # "distance_limit=": route length equals the limit in exact dyadic arithmetic (no rounding ambiguity)
+            eq = dyadic and limit - length == 0 and float(limit * 1024).is_integer()
+            v.add("distance_limit=" if eq else "distance_limit", limit - length)
         len_slacks.append(limit - length)
         total += length
     v.obj, v.terms = -total, total
